@@ -479,7 +479,7 @@ func c19SizeSweep(c *mc.Ctx) {
 					mx = len(t)
 				}
 			}
-			c.Count("max_table_size", int64(mx))
+			c.Max("max_table_size", int64(mx))
 		}
 	})
 	c.Outcome("sweep-done")
